@@ -13,17 +13,18 @@ import (
 
 func c16Names(thorough bool) []nameTuple {
 	tables := []string{"t", "t1", "t-", "t.", "t_", "t:", "ns:t", "s", "ta", "T"}
-	maxLen := 2
+	alpha := sigma6
 	if thorough {
-		maxLen = 3
+		// two more bytes around the id separator and the digits
+		alpha = []byte{0x00, '+', ',', '-', '0', ':', 'a', 0xff}
 	}
 	ids := []string{"1", "10", "9", "1.x.", ":", "1700000000000.0123456789abcdef0123456789abcdef."}
 	var out []nameTuple
 	for _, t := range tables {
-		for _, s := range stringsUpTo(sigma6, maxLen) {
+		for _, s := range stringsUpTo(alpha, 3) {
 			for _, id := range ids {
-				if thorough && len(s) == 3 && (id == "10" || id == "9" || len(id) > 10) {
-					continue // keep the thorough space at ~10^8 pairs
+				if len(s) == 3 && (id == "10" || id == "9" || len(id) > 10) {
+					continue // keeps the space at ~10^8 (quick) / ~5*10^8 (thorough) pairs
 				}
 				out = append(out, nameTuple{[]byte(t), s, []byte(id)})
 			}
@@ -36,8 +37,8 @@ func init() {
 	register(&Prop{
 		ID: "C16", Level: "exploration",
 		Technique: "exhaustive small-scope enumeration of name pairs and triples against a tuple-order oracle (bounded model checking of the comparator's input space)",
-		Rule: "all ordered pairs of region names table,start,id with 10 table names (prefixes of one another, '-', '.', '_', ':', namespaced), every start key of length <=2 (thorough <=3) over {00,'+',',','-','a',ff}, 6 id shapes; all triples of a 160-name subset; every lookup search key table,key,: against every name. Non-trivial = the two names differ; distinct by construction of the enumeration.",
-		Assumptions: []string{"names are well formed: no comma in table name or id", "scope: start keys <=2 (quick) / <=3 (thorough) bytes over a 6-symbol alphabet"},
+		Rule: "all ordered pairs of region names table,start,id with 10 table names (prefixes of one another, '-', '.', '_', ':', namespaced), every start key of length <=3 over {00,'+',',','-','a',ff} (thorough: plus '0' and ':'), 6 id shapes; all triples of a 160-name subset; every lookup search key table,key,: against every name. Non-trivial = the two names differ; distinct by construction of the enumeration.",
+		Assumptions: []string{"names are well formed: no comma in table name or id", "scope: start keys <=3 bytes over a 6-symbol (thorough 8-symbol) alphabet"},
 		Quick:       60 * time.Second, Thorough: 10 * time.Minute,
 		Direct: c16Direct,
 	})
